@@ -319,4 +319,201 @@ def globalSlice (i : GSliceInput) : List (Nat × List (Nat × Nat)) :=
   let errored := members.filter (fun p => match replyOf i.replies p with | .err => true | _ => false)
   errored.foldl (fun m p => m.map (fun e => (e.1, gAdd e.2 p stClusterError))) m
 
+/-! ## Round 7: the same views when resources fail, for any daemon answer
+
+`FInput`/`FRec` generalise `Input`/`Rec`: every call the two views make can
+fail (`getState`, `State.List` — at once or mid-way, the partial result is
+discarded —, `State.Get` of one CID, `PinLs("direct")`, `PinLs("recursive")`,
+`PinLsCid` of one CID), and the daemon's answers are arbitrary: what
+`IPFSPinStatusFromString` makes of the type string of the CID's entry in each
+of the two listings (or no entry) and of the `pin/ls?arg=` answer. -/
+
+/-- `IPFSPinStatusFromString` classes of a type string: prefix "indirect",
+prefix "recursive", exactly "direct", anything else (`IPFSPinStatusBug`).
+`Gen.fromStringSamples` is regenerated from the linked function. -/
+def isPrefixOfChars : List Char → List Char → Bool
+  | [], _ => true
+  | _ :: _, [] => false
+  | a :: as, b :: bs => a == b && isPrefixOfChars as bs
+
+def ipfsFromString (t : String) : IpfsStatus :=
+  if isPrefixOfChars "indirect".toList t.toList then .indirect
+  else if isPrefixOfChars "recursive".toList t.toList then .recursive
+  else if t == "direct" then .direct
+  else .bug
+
+/-- `IPFSPinStatus.IsPinned(maxDepth)` -/
+def ipfsIsPinned (s : IpfsStatus) (depth : Int) : Bool :=
+  if depth < 0 then s == .recursive
+  else if depth == 0 then s == .direct
+  else s == .recursive
+
+/-- what the connector hands to the tracker about one CID -/
+structure DaemonAns where
+  lsD : Option IpfsStatus     -- entry of the CID in `PinLs("direct")`, if any
+  lsR : Option IpfsStatus     -- entry of the CID in `PinLs("recursive")`, if any
+  lsCid : IpfsStatus          -- `PinLsCid(pin)` (asked with the pin's own mode)
+  deriving DecidableEq, Repr
+
+structure FRec where
+  cid : Nat
+  pin : Option Pin
+  ans : DaemonAns
+  op : Option Op
+  getErr : Bool               -- `State.Get(cid)` fails
+  lsCidErr : Bool             -- `PinLsCid` for this CID fails
+  deriving DecidableEq, Repr
+
+structure FInput where
+  self : Nat
+  stateErr : Bool             -- `getState` (consensus `State()`) fails
+  listErr : Bool              -- `State.List` fails (immediately or mid-way)
+  lsDErr : Bool               -- `PinLs("direct")` fails
+  lsRErr : Bool               -- `PinLs("recursive")` fails
+  recs : List FRec
+  deriving Repr
+
+def opEntryO (o : Option Op) : Option Nat :=
+  match o with
+  | none => none
+  | some o => if o.phase == .done then none else some (opStatus o)
+
+/-- `Tracker.Status(cid)` with failing resources -/
+def statusF (i : FInput) (r : FRec) : Nat :=
+  match opEntryO r.op with
+  | some s => s
+  | none =>
+    if i.stateErr then stClusterError             -- getState: addError
+    else if r.getErr then stClusterError          -- st.Get: addError
+    else
+      match r.pin with
+      | none => stUnpinned
+      | some p =>
+        if p.isMeta then stSharded
+        else if p.isRemote i.self then stRemote
+        else if r.lsCidErr then stClusterError    -- PinLsCid: addError
+        else
+          let t := ipfsToTracker r.ans.lsCid
+          if t == stUnpinned then stPinError else t
+
+/-- `localStatus` returns an error (and `StatusAll` nil) for this filter -/
+def listFailed (i : FInput) (f : Nat) : Bool :=
+  i.stateErr || (wantState f && i.listErr) || (wantIpfs f && (i.lsDErr || i.lsRErr))
+
+def localEntryF (i : FInput) (incExtra : Bool) (f : Nat) (r : FRec) : Option Nat :=
+  if !wantState f then none
+  else
+    match r.pin with
+    | none => none
+    | some p =>
+      if p.isMeta then
+        if !incExtra || !matchF f stSharded then none else some stSharded
+      else if p.isRemote i.self then
+        if !incExtra || !matchF f stRemote then none else some stRemote
+      else
+        match (if wantIpfs f then (if p.direct then r.ans.lsD else r.ans.lsR) else none) with
+        | some ips => some (ipfsToTracker ips)
+        | none => some stUnexpectedlyUnpinned
+
+def listEntryF (i : FInput) (f : Nat) (r : FRec) : Option Nat :=
+  if listFailed i f then none
+  else
+    let e := match opEntryO r.op with
+      | some s => some s
+      | none => localEntryF i true f r
+    e.filter (fun s => matchF s f)
+
+def statusAllF (i : FInput) (f : Nat) : List (Nat × Nat) :=
+  i.recs.filterMap (fun r => (listEntryF i f r).map (fun s => (r.cid, s)))
+
+def statusEachF (i : FInput) : List (Nat × Nat) :=
+  i.recs.map (fun r => (r.cid, statusF i r))
+
+def sortedCidsF : List FRec → Bool
+  | [] => true
+  | [_] => true
+  | a :: b :: t => decide (a.cid < b.cid) && sortedCidsF (b :: t)
+
+def wfF (i : FInput) : Bool := sortedCidsF i.recs
+
+/-- a go-ipfs daemon: the answers follow from what it holds -/
+def wellBehaved (p : Option Pin) (held : Ipfs) : DaemonAns :=
+  { lsD := pinLs true held, lsR := pinLs false held,
+    lsCid := match p with | some p => pinLsCid p held | none => .unpinned }
+
+/-- the fault-free instance (a daemon that is down fails every query) -/
+def Rec.toF (up : Bool) (r : Rec) : FRec :=
+  { cid := r.cid, pin := r.pin, ans := wellBehaved r.pin r.ipfs, op := r.op, getErr := false, lsCidErr := !up }
+
+def Input.toF (i : Input) : FInput :=
+  { self := i.self, stateErr := false, listErr := false, lsDErr := !i.ipfsUp, lsRErr := !i.ipfsUp,
+    recs := i.recs.map (Rec.toF i.ipfsUp) }
+
+/-! ### PinInfo content (sequential reads)
+
+`Error` text: set by `addError` (cluster_error), with `errUnexpectedlyUnpinned`
+for pin_error / unexpectedly_unpinned, and by `Operation.SetError` for an
+operation in the error phase — also the `OperationRemote` one, whose status
+stays `remote`. -/
+
+/-- does the `PinInfo` of `Status` carry an error text -/
+def errTextS (i : FInput) (r : FRec) : Bool :=
+  match r.op with
+  | some o => if o.phase == .done then isErrSt (statusF i r) else o.phase == .error
+  | none => isErrSt (statusF i r)
+where isErrSt (s : Nat) : Bool :=
+  s == stClusterError || s == stPinError || s == stUnpinError || s == stUnexpectedlyUnpinned
+
+/-! ### Recover
+
+`Recover(cid)`: the operation table's entry, else `Status`; pin_error /
+unexpectedly_unpinned re-enqueue a pin, unpin_error an unpin; the answer is
+`Status` read after that. `phase` is where the new operation is when that
+`Status` is read (queued, or already picked up by a worker). -/
+
+def recoverOp (s0 : Nat) (ph : Phase) : Option Op :=
+  if s0 == stPinError || s0 == stUnexpectedlyUnpinned then some ⟨.pin, ph⟩
+  else if s0 == stUnpinError then some ⟨.unpin, ph⟩
+  else none
+
+/-- the record after `Recover` was called when the view showed `s0` -/
+def afterRecover (r : Rec) (s0 : Nat) (ph : Phase) : Rec :=
+  match recoverOp s0 ph with
+  | some o => { r with op := some o }
+  | none => r
+
+/-- answer of `Tracker.Recover(cid)` -/
+def recover (i : Input) (r : Rec) (ph : Phase) : Nat := status i (afterRecover r (status i r) ph)
+
+/-- answers of `Tracker.RecoverAll()`: one per entry of `StatusAll(0)` -/
+def recoverAll (i : Input) (phs : Nat → Phase) : List (Nat × Nat) :=
+  i.recs.filterMap (fun r => (listEntry i 0 r).map (fun s0 => (r.cid, status i (afterRecover r s0 (phs r.cid)))))
+
+/-! ### cluster-wide views when `consensus.Peers` / the state fail -/
+
+structure GCidF where
+  base : GCidInput
+  stateErr : Bool      -- `PinGet` fails with something else than not-found
+  peersErr : Bool      -- `consensus.Peers` fails
+  deriving Repr
+
+/-- `globalPinInfoCid`: `none` = the call returns an error -/
+def globalCidF (i : GCidF) : Option (List (Nat × Nat)) :=
+  if i.stateErr then none
+  else if !i.base.follower && i.peersErr then none
+  else some (globalCid i.base)
+
+structure GSliceF where
+  base : GSliceInput
+  peersErr : Bool
+  deriving Repr
+
+def globalSliceF (i : GSliceF) : Option (List (Nat × List (Nat × Nat))) :=
+  if !i.base.follower && i.peersErr then none else some (globalSlice i.base)
+
+/-- the members of `globalPinInfoSlice` whose call failed (not refused) -/
+def erroredMembers (i : GSliceInput) : List Nat :=
+  (if i.follower then [i.self] else i.members).filter
+    (fun p => match replyOf i.replies p with | .err => true | _ => false)
+
 end CV.C06
